@@ -111,7 +111,7 @@ func (n *lndNotifier) RegisterBlockEpochNtfn(ctx context.Context, in *chainrpc.B
 	if n.l.regFails() {
 		return nil, status.Error(codes.Unavailable, "lnd is not reachable")
 	}
-	s := &epochStream{ctx: ctx, ch: make(chan *chainrpc.BlockEpoch, 4096), last: in.Height, l: n.l}
+	s := &epochStream{ctx: ctx, ch: make(chan *chainrpc.BlockEpoch, 1<<16), last: in.Height, l: n.l}
 	n.l.mu.Lock()
 	n.l.epochs = append(n.l.epochs, s)
 	n.l.mu.Unlock()
